@@ -269,9 +269,28 @@ def record_footprint_case(case):
         st["hooked"] = bool(hooked)
         st["impl"] = [[seg_of_pos.get(x["segment_position"], 0), x["chunk_offset"], max(x["num_chunks"], 0)] for x in impl]
         steps.append(st)
+        st["fresh"] = False
+    f.close()
+    # the first request a file serves: some narrow requests, each on a file opened afresh (nothing indexed or cached yet)
+    narrow = [r for r in wins if r["len"] == 1] + idx
+    hh = _h(repr(rec["shape"]), seed)
+    for q in range(min(4, len(narrow))):
+        r = narrow[(hh + q * 7919) % len(narrow)]
+        stream2 = RecordingStream(e.data)
+        f2 = TdmsFile.open(stream2, raw_timestamps=True)
+        stream2.recording = True
+        stream2.take()
+        del impl[:]
+        perform(f2["grp"]["x"], r)
+        st = dict(r)
+        st["reads"] = stream2.take()
+        st["hooked"] = bool(hooked)
+        st["impl"] = [[seg_of_pos.get(x["segment_position"], 0), x["chunk_offset"], max(x["num_chunks"], 0)] for x in impl]
+        st["fresh"] = True
+        steps.append(st)
+        f2.close()
     if _verif is not None:
         _verif.set_sink(None)
-    f.close()
     trace = {"id": case["id"], "il": bool(rec["shape"]["il"]), "segs": rec["shape"]["segs"],
              "lay": layout_of(fd, e, info["xtype"]), "steps": steps,
              "info": {"xtype": info["xtype"], "with_y": info["with_y"], "variant": case.get("variant", 0)}}
